@@ -624,40 +624,54 @@ async fn main() {
     if a.mode == "venue" && !m.on.contains("C20") {
         m.on.insert("C20");
     }
-    match a.prop.as_str() {
-        _ if a.mode == "venue" => run_venue(&a, &mut m).await,
-        "C20" => run_venue(&a, &mut m).await,
-        "C01" | "C02" | "C03" | "C06" | "C16" | "C17" | "ALL" => run_storm(&a, &mut m).await,
-        "C11" => {
-            if a.shard % 2 == 0 {
-                run_shapes(&a, &mut m).await
-            } else {
-                run_storm(&a, &mut m).await
+    // The engines stop by themselves when the budget is used up. A soft limit well beyond it guards
+    // against a request that never returns (the banks server polls for a status the runtime never
+    // records, or the machine is overloaded): the engine is dropped with that request in flight and
+    // everything judged up to then is reported (a transaction in flight has not been judged).
+    let soft = a.budget + std::cmp::max(a.budget, Duration::from_secs(120));
+    let finished = {
+        let engine = async {
+            match a.prop.as_str() {
+                _ if a.mode == "venue" => run_venue(&a, &mut m).await,
+                "C20" => run_venue(&a, &mut m).await,
+                "C01" | "C02" | "C03" | "C06" | "C16" | "C17" | "ALL" => run_storm(&a, &mut m).await,
+                "C11" => {
+                    if a.shard % 2 == 0 {
+                        run_shapes(&a, &mut m).await
+                    } else {
+                        run_storm(&a, &mut m).await
+                    }
+                }
+                "C10" => {
+                    if a.shard % 2 == 0 {
+                        run_shapes(&a, &mut m).await
+                    } else {
+                        run_scen(&a, &mut m).await
+                    }
+                }
+                "C04" | "C05" | "C07" | "C09" => run_scen(&a, &mut m).await,
+                "C12" | "C13" | "C18" | "C19" => run_admin(&a, &mut m).await,
+                "C15" => run_pause_chain(&a, &mut m).await,
+                "C08" | "C14" => {
+                    if a.shard % 2 == 0 {
+                        run_matrix(&a, &mut m).await
+                    } else if a.prop == "C08" {
+                        run_admin(&a, &mut m).await
+                    } else {
+                        run_storm(&a, &mut m).await
+                    }
+                }
+                p => {
+                    eprintln!("unknown property {}", p);
+                    std::process::exit(3);
+                }
             }
-        }
-        "C10" => {
-            if a.shard % 2 == 0 {
-                run_shapes(&a, &mut m).await
-            } else {
-                run_scen(&a, &mut m).await
-            }
-        }
-        "C04" | "C05" | "C07" | "C09" => run_scen(&a, &mut m).await,
-        "C12" | "C13" | "C18" | "C19" => run_admin(&a, &mut m).await,
-        "C15" => run_pause_chain(&a, &mut m).await,
-        "C08" | "C14" => {
-            if a.shard % 2 == 0 {
-                run_matrix(&a, &mut m).await
-            } else if a.prop == "C08" {
-                run_admin(&a, &mut m).await
-            } else {
-                run_storm(&a, &mut m).await
-            }
-        }
-        p => {
-            eprintln!("unknown property {}", p);
-            std::process::exit(3);
-        }
+        };
+        tokio::time::timeout(soft, engine).await.is_ok()
+    };
+    if !finished {
+        m.r.count("harness.workers_stopped_at_soft_time_limit");
+        m.r.note("worker stopped at the soft time limit with a request in flight; observations up to then are reported");
     }
     for (k, n) in m.ix_seen.iter() {
         m.r.add(&format!("ix_ok/{}", k.name()), *n);
